@@ -145,12 +145,12 @@ def cmdType (env : Env) (args : List Bytes) : CmdRes :=
       let binary := !opts.isEmpty
       bodyCommand env non (fun b => if binary then b else crToLf b)
 
-/-- `list`'s byte-at-a-time state machine -/
+/-- `list`'s byte-at-a-time state machine (output accumulated in reverse) -/
 def listLoop : Bytes → Nat → Bool → Bytes → Bytes
-  | [], _, _, acc => acc
+  | [], _, _, acc => acc.reverse
   | c :: rest, ln, sol, acc =>
-    let (acc, ln) := if sol then (acc ++ padLeft 4 32 (decU ln) ++ [32], ln + 1) else (acc, ln)
-    if c == 13 then listLoop rest ln true (acc ++ [10]) else listLoop rest ln false (acc ++ [c])
+    let (acc, ln) := if sol then ([32] ++ (padLeft 4 32 (decU ln)).reverse ++ acc, ln + 1) else (acc, ln)
+    if c == 13 then listLoop rest ln true (10 :: acc) else listLoop rest ln false (c :: acc)
 
 def listRender (b : Bytes) : Bytes := listLoop b 1 true []
 
@@ -167,15 +167,16 @@ def hexdumpRow (pos : Nat) (b : Bytes) : Bytes :=
     if ch == 32 || isGraphC ch then ch else 46
   padLeft 6 48 (decU pos) ++ cells ++ [32] ++ chars ++ [10]
 
-def hexdumpLoop : Nat → Nat → Bytes → Bytes → Bytes
-  | 0, _, _, acc => acc
+def hexdumpLoop : Nat → Nat → Bytes → List Bytes → List Bytes
+  | 0, _, _, acc => acc.reverse
   | fuel + 1, pos, b, acc =>
-    if b.isEmpty then acc
+    if b.isEmpty then acc.reverse
     else
-      let acc := acc ++ hexdumpRow pos b
-      if b.length ≥ 8 then hexdumpLoop fuel (pos + 8) (b.drop 8) acc else acc
+      let row := b.take 8
+      let acc := hexdumpRow pos row :: acc
+      if row.length ≥ 8 then hexdumpLoop fuel (pos + 8) (b.drop 8) acc else acc.reverse
 
-def hexdump (b : Bytes) : Bytes := hexdumpLoop (b.length / 8 + 1) 0 b []
+def hexdump (b : Bytes) : Bytes := (hexdumpLoop (b.length / 8 + 1) 0 b []).flatten
 
 def cmdDump (env : Env) (args : List Bytes) : CmdRes := bodyCommand env args hexdump
 
@@ -597,12 +598,12 @@ def unusedSpans (sm : SecMap) (last : Nat) : List (Nat × Nat) :=
     | none, some b => (st.1, some b)) ([], none)
   spans
 
-def spanContent (m : Media) : Nat → Nat → Bytes → Bytes × Bool
-  | 0, _, acc => (acc, false)
+def spanContent (m : Media) : Nat → Nat → List Bytes → Bytes × Bool
+  | 0, _, acc => (acc.reverse.flatten, false)
   | k + 1, sec, acc =>
     match m sec with
-    | none => (acc, true)
-    | some s => spanContent m k (sec + 1) (acc ++ s)
+    | none => (acc.reverse.flatten, true)
+    | some s => spanContent m k (sec + 1) (s :: acc)
 
 def cmdExtractUnused (env : Env) (args : List Bytes) : CmdRes :=
   if env.ctx.vol.subvol.isSome then failErr
